@@ -12,7 +12,7 @@ import est_common as ec
 
 PROP_FILE = 'theories/Properties/C06.v'
 MODEL_FILES = ['theories/Base/Rows.v', 'theories/Model/Estimators.v', 'theories/Model/Variance.v', 'theories/Spec/Measures.v']
-GEN_GROUPS = ['calc', 'ic', 'aipw', 'pool', 'wprod', 'xfvar', 'drci', 'xftmle']
+GEN_GROUPS = ['calc', 'ic', 'aipw', 'pool', 'wprod', 'xfvar', 'drci', 'xftmle', 'stmle']
 RULE = ('alpha grid {0.05, 0.049999, 0.5, 1e-6, 0.999, 0.01, 0.2} x: count calculators on random tables; AIPTW / TMLE / '
         'StochasticTMLE / IPTW on random mixed frames; calculate_joint_estimate on random vectors and the four cross-fit '
         'classes with sklearn learners; per fit: limits = est -/+ norm.ppf(1-alpha/2)*SE on the documented scale, nestedness '
@@ -306,6 +306,15 @@ def stmle_part(ctx, fails):
             p = [ctx.rng.choice([0.2, 0.5]), ctx.rng.choice([0.7, 0.9])]
         seed = ctx.rng.choice([0, 7, 20211])
         ctx.count('stmle plan:' + ('conditional' if cond else 'scalar'))
+        vcalls = []
+        orig_mv = StochasticTMLE.est_marginal_variance
+
+        def spy_mv(haw, y_obs, y_pred, y_pred_targeted, psi):
+            r_ = orig_mv(haw=haw, y_obs=y_obs, y_pred=y_pred, y_pred_targeted=y_pred_targeted, psi=psi)
+            vcalls.append((np.asarray(haw, dtype=float), np.asarray(y_obs, dtype=float), np.asarray(y_pred, dtype=float),
+                           np.asarray(y_pred_targeted, dtype=float), float(psi), float(r_)))
+            return r_
+        StochasticTMLE.est_marginal_variance = staticmethod(spy_mv)
         try:
             for a in ALPHAS:
                 st = StochasticTMLE(df, 'A', 'Y', alpha=a)
@@ -317,6 +326,31 @@ def stmle_part(ctx, fails):
         except Exception as e:   # noqa
             fails.append((len(df), 'StochasticTMLE.fit.raises', 'StochasticTMLE raised %s: %s' % (type(e).__name__, str(e)[:100]), payload))
             continue
+        finally:
+            StochasticTMLE.est_marginal_variance = staticmethod(orig_mv)
+        # SE^2 = mean of the squared influence values over n (Model.Variance.stmle_var), and the conditional SE likewise,
+        # recomputed from the arrays the estimator handed to its own variance function in the last fit
+        if vcalls:
+            haw_, y_, q_, qs_, psi_, v_ = vcalls[-1]
+            ic_ = haw_ * (y_ - q_) + qs_ - psi_
+            se_ref = math.sqrt(float(np.mean(ic_ ** 2)) / len(y_))
+            sec_ref = math.sqrt(float(np.mean((haw_ * (y_ - q_)) ** 2)) / len(y_))
+            ctx.disagreements_checked += 1
+            ctx.count('StochasticTMLE SE recomputed from the influence values')
+            if abs(psi_ - float(st.marginal_outcome)) > 1e-12 * max(1.0, abs(psi_)) or len(y_) != st.df.shape[0]:
+                fails.append((len(df), 'StochasticTMLE.variance.arguments', 'the variance estimator was called with psi=%r on %d rows; the reported '
+                              'marginal outcome is %r on %d rows' % (psi_, len(y_), float(st.marginal_outcome), st.df.shape[0]), payload))
+            if not (abs(float(st.marginal_se) - se_ref) <= 1e-10 * max(1.0, se_ref)):
+                fails.append((len(df), 'StochasticTMLE.marginal_se', 'marginal_se = %r; sqrt(mean squared influence value / n) = %r'
+                              % (float(st.marginal_se), se_ref), payload))
+            if not (abs(float(st.conditional_se) - sec_ref) <= 1e-10 * max(1.0, sec_ref)):
+                fails.append((len(df), 'StochasticTMLE.conditional_se', 'conditional_se = %r; sqrt(mean squared conditional influence value / n) = %r'
+                              % (float(st.conditional_se), sec_ref), payload))
+            cz = z(ALPHAS[-1])
+            if not (abs(float(st.conditional_ci[0]) - (float(st.marginal_outcome) - cz * float(st.conditional_se))) <= 1e-9
+                    and abs(float(st.conditional_ci[1]) - (float(st.marginal_outcome) + cz * float(st.conditional_se))) <= 1e-9):
+                fails.append((len(df), 'StochasticTMLE.conditional_ci', 'conditional_ci = %r is not marginal outcome -/+ z*conditional_se'
+                              % (list(map(float, st.conditional_ci)),), payload))
         ctx.evaluations += 1
         ctx.programs += 1
         ctx.count('site:StochasticTMLE')
